@@ -160,8 +160,8 @@ fn check_unchanged(m: &Slot, before: (u64, &Obs), what: &str) -> Option<Violatio
 fn check_continuation(m: &mut Slot, plan: &C05Plan, twin: &Twin, what: &str) -> Option<Violation> {
     for (i, c) in plan.cont.iter().enumerate() {
         let o = decode_fresh(m, &c.bytes);
-        if let Outcome::Panic(p) = &o {
-            return viol("panic", format!("{what}: continuation picture {i} panicked: {p}"));
+        if let Outcome::Panic(_) = &o {
+            return None; // a crash is C01's verdict
         }
         let ob = observe(m, &o);
         if ob != twin.after_c[i] {
@@ -228,7 +228,10 @@ pub fn exec_c05(plan: &C05Plan, st: &mut Stats) -> Option<Violation> {
                 st.inc("evaluations");
                 st.add("steps", 1);
                 match &o {
-                    Outcome::Panic(p) => return viol("panic", format!("I/O fault {kind:?} at source byte {failures}: {p}")),
+                    Outcome::Panic(_) => {
+                        st.inc("panic_not_judged_here"); // a crash is C01's verdict
+                        return None;
+                    }
                     Outcome::Ok => {
                         // the armed fault was not reached: all data was buffered
                         m.disarm_all();
@@ -279,8 +282,9 @@ pub fn exec_c05(plan: &C05Plan, st: &mut Stats) -> Option<Violation> {
         st.inc("evaluations");
         let fired = m.pipe.lock().unwrap().fired.iter().map(|f| f.1).sum::<u64>();
         st.add("fault.src_Eintr.fired", fired);
-        if let Outcome::Panic(p) = &o {
-            return viol("panic", format!("EINTR on every other read: {p}"));
+        if let Outcome::Panic(_) = &o {
+            st.inc("panic_not_judged_here");
+            return None;
         }
         let ob = observe(&m, &o);
         if ob != twin.after_v {
@@ -304,7 +308,10 @@ pub fn exec_c05(plan: &C05Plan, st: &mut Stats) -> Option<Violation> {
             st.inc("fault.eof_for_now.fired");
             let elem = marks.as_ref().map(|mk| mk.classify_byte(k)).unwrap_or("?");
             match &o {
-                Outcome::Panic(p) => return viol("panic", format!("first {k} of {} bytes delivered ({elem}): {p}", v.len())),
+                Outcome::Panic(_) => {
+                    st.inc("panic_not_judged_here");
+                    continue;
+                }
                 Outcome::Ok => {
                     // legitimately accepted as a picture that ended early: the
                     // precondition "the call failed" is not met — counted, not judged
@@ -332,8 +339,9 @@ pub fn exec_c05(plan: &C05Plan, st: &mut Stats) -> Option<Violation> {
             m.feed(&v[k..]);
             let o2 = m.decode();
             st.inc("evaluations");
-            if let Outcome::Panic(p) = &o2 {
-                return viol("panic", format!("{what}; retry after the rest arrived: {p}"));
+            if let Outcome::Panic(_) = &o2 {
+                st.inc("panic_not_judged_here");
+                continue;
             }
             let ob = observe(&m, &o2);
             if ob != twin.after_v {
@@ -370,7 +378,10 @@ pub fn exec_c05(plan: &C05Plan, st: &mut Stats) -> Option<Violation> {
             st.add("steps", 1);
             let what = format!("poison '{}' -> {}", p.note, o.short());
             match &o {
-                Outcome::Panic(pp) => return viol("panic", format!("poison '{}': {pp}", p.note)),
+                Outcome::Panic(_) => {
+                    st.inc("panic_not_judged_here");
+                    continue;
+                }
                 Outcome::Ok => {
                     st.inc("poison_accepted");
                     continue;
@@ -394,8 +405,9 @@ pub fn exec_c05(plan: &C05Plan, st: &mut Stats) -> Option<Violation> {
             // valid data afterwards: the victim, then the continuation
             let o2 = decode_fresh(&mut m, v);
             st.inc("evaluations");
-            if let Outcome::Panic(pp) = &o2 {
-                return viol("panic", format!("{what}; then the valid picture: {pp}"));
+            if let Outcome::Panic(_) = &o2 {
+                st.inc("panic_not_judged_here");
+                continue;
             }
             let ob = observe(&m, &o2);
             if ob != twin.after_v {
@@ -420,7 +432,11 @@ pub fn exec_c05(plan: &C05Plan, st: &mut Stats) -> Option<Violation> {
             let o = decode_fresh(&mut m, &p.bytes);
             st.inc("evaluations");
             match &o {
-                Outcome::Panic(pp) => return viol("panic", format!("failure chain, poison '{}': {pp}", p.note)),
+                Outcome::Panic(_) => {
+                    st.inc("panic_not_judged_here");
+                    clean = false;
+                    break;
+                }
                 Outcome::Ok => {
                     clean = false; // accepted: the state changed legitimately, stop the chain
                     break;
